@@ -2707,6 +2707,11 @@ class netcdf(PseudoNetCDFFile, NetCDFFile):
             return False
 
     def close(self):
+        # closing twice (e.g., close() and later __del__) must not reach
+        # the netCDF library: handle ids are recycled, so a stale close
+        # would close whichever file was opened in the meantime
+        if not self.isopen():
+            return
         try:
             return NetCDFFile.close(self)
         except Exception as e:
